@@ -10,15 +10,16 @@ class PatchError(Exception):
 
 
 def parse(diff_text: str) -> dict[str, list[tuple[list[str], list[str]]]]:
-    """relpath -> list of hunks (old_lines, new_lines), both including the context lines."""
+    """relpath -> list of hunks (old_lines, new_lines, old_start), both line lists including the context lines."""
     files: dict[str, list] = {}
     cur = None
     hunk_old: list[str] | None = None
     hunk_new: list[str] | None = None
+    start = 0
     for line in diff_text.splitlines():
         if line.startswith("diff --git"):
             if cur is not None and hunk_old is not None:
-                files[cur].append((hunk_old, hunk_new))
+                files[cur].append((hunk_old, hunk_new, start))
             cur, hunk_old, hunk_new = None, None, None
             continue
         if line.startswith("+++ "):
@@ -32,8 +33,10 @@ def parse(diff_text: str) -> dict[str, list[tuple[list[str], list[str]]]]:
             if cur is None:
                 raise PatchError("hunk before file header")
             if hunk_old is not None:
-                files[cur].append((hunk_old, hunk_new))
+                files[cur].append((hunk_old, hunk_new, start))
             hunk_old, hunk_new = [], []
+            m = re.match(r"@@ -(\d+)", line)
+            start = int(m.group(1)) if m else 0
             continue
         if hunk_old is None:
             continue
@@ -48,24 +51,29 @@ def parse(diff_text: str) -> dict[str, list[tuple[list[str], list[str]]]]:
             hunk_old.append(txt)
             hunk_new.append(txt)
     if cur is not None and hunk_old is not None:
-        files[cur].append((hunk_old, hunk_new))
+        files[cur].append((hunk_old, hunk_new, start))
     return files
 
 
 def apply_to_text(text: str, hunks) -> str:
+    """Hunks are applied where their header says (shifted by what earlier hunks added or removed); when the context
+    is not there, at the nearest place where it is (as `git apply` / `patch` do) - never at the *first* place,
+    which may be a sibling function with the same lines."""
     lines = text.split("\n")
     pos = 0
-    for old, new in hunks:
-        found = None
+    delta = 0
+    for hunk in hunks:
+        old, new = hunk[0], hunk[1]
+        start = hunk[2] if len(hunk) > 2 else 0
         n = len(old)
-        for i in range(pos, len(lines) - n + 1):
-            if lines[i : i + n] == old:
-                found = i
-                break
-        if found is None:
+        cands = [i for i in range(pos, len(lines) - n + 1) if lines[i : i + n] == old]
+        if not cands:
             raise PatchError("hunk context not found")
+        want = (start - 1 + delta) if start else cands[0]
+        found = min(cands, key=lambda i: (abs(i - want), i))
         lines[found : found + n] = new
         pos = found + len(new)
+        delta += len(new) - n
     return "\n".join(lines)
 
 
